@@ -116,6 +116,14 @@ func body(c *runner.Ctx, faults bool) {
 		c.Class = "faulty"
 	}
 	w.latency = c.Choose(2, "latency-on") == 1
+	if c.Choose(4, "bad-unions") == 1 {
+		w.badU = map[int64]bool{}
+		for i := 0; i < w.nA; i++ {
+			if c.Choose(3, "bad-union") == 0 {
+				w.badU[w.as[i].ID] = true
+			}
+		}
+	}
 	var modeDesc []string
 	for _, f := range computedFields {
 		m := fieldMode{mode: c.Choose(5, "mode")}
@@ -134,7 +142,7 @@ func body(c *runner.Ctx, faults bool) {
 	nExec := 1 + c.Choose(3, "executions")
 	var execs []*execution
 	for i := 0; i < nExec; i++ {
-		g := &gen{c: c, w: w, budget: 14}
+		g := &gen{c: c, w: w, budget: 14, nb: c.Choose(3, "non-null-field") > 0}
 		root := g.genSet("Query", 0)
 		g.addTwins(root)
 		ex := &execution{idx: i, root: root}
@@ -289,8 +297,21 @@ func body(c *runner.Ctx, faults bool) {
 		if len(ev.fails) > 1 {
 			c.Probe("execution-with-several-failing-resolvers")
 		}
+		props := "C16"
+		for _, f := range ev.fails {
+			if f.f.kind == 5 {
+				// whether a nil for a non-null field is an error must not depend on
+				// the execution mode either
+				c.Probe("non-null-field-resolves-to-nil")
+				props = "C01,C16"
+				break
+			}
+			if f.f.kind == 6 {
+				c.Probe("union-value-with-two-members")
+			}
+		}
 		if ex.err == nil {
-			c.ViolateFor("C16", "partial-data-despite-error", "Execute returned data although %d resolver instance(s) fail (e.g. %s at %s)\nquery: %s\n got: %s", len(ev.fails), ev.fails[0].field, strings.Join(ev.fails[0].path, "."), ex.text, short(ex.val))
+			c.ViolateFor(props, "partial-data-despite-error", "Execute returned data although %d resolver instance(s) fail (e.g. %s at %s)\nquery: %s\n got: %s", len(ev.fails), ev.fails[0].field, strings.Join(ev.fails[0].path, "."), ex.text, short(ex.val))
 			continue
 		}
 		if ex.val != nil {
@@ -363,6 +384,9 @@ func firstDiff(got, want interface{}, depth int) string {
 	return "wrong-value"
 }
 
+const nonNullMsg = "is marked non-nullable but returned a null value"
+const badUnionMsg = "union type field should only return one value"
+
 func expectedError(w *world, ex *execution, f failRec) string {
 	switch f.f.kind {
 	case 2, 3:
@@ -374,6 +398,12 @@ func expectedError(w *world, ex *execution, f failRec) string {
 	}
 	if f.f.kind == 4 {
 		return p + ": graphql: panic: " + f.f.token
+	}
+	if f.f.kind == 5 {
+		return p + ": <resolver type> " + nonNullMsg
+	}
+	if f.f.kind == 6 {
+		return "<path>: " + badUnionMsg + " ..."
 	}
 	return p + ": " + f.f.token
 }
@@ -409,6 +439,12 @@ func matchesSomeFailure(w *world, ex *execution, fails []failRec) bool {
 	msg := ex.err.Error()
 	for _, f := range fails {
 		want := expectedError(w, ex, f)
+		if f.f.kind == 6 {
+			if strings.Contains(msg, badUnionMsg) {
+				return true
+			}
+			continue
+		}
 		switch f.f.kind {
 		case 2, 3:
 			if msg == want {
@@ -427,6 +463,9 @@ func matchesSomeFailure(w *world, ex *execution, fails []failRec) bool {
 		okRest := rest == wantRest
 		if f.f.kind == 4 {
 			okRest = strings.HasPrefix(rest, wantRest+"\n") || rest == wantRest
+		}
+		if f.f.kind == 5 {
+			okRest = strings.HasSuffix(rest, nonNullMsg)
 		}
 		if !okRest {
 			continue
